@@ -35,12 +35,13 @@ def scratch():
 
 
 class Result:
-    __slots__ = ('status', 'out', 'err', 'trace', 'wall_us', 'crash', 'timeout')
+    __slots__ = ('status', 'out', 'err', 'trace', 'wall_us', 'crash', 'timeout', 'polls')
 
     def __init__(self, status, out, err, trace, wall_us, crash=None, timeout=False):
         self.status = status; self.out = out; self.err = err; self.trace = trace; self.wall_us = wall_us
         self.crash = crash      # None | 'signal N' | 'exit N' (process ended inside the job, e.g. exit(1), abort, sanitizer)
         self.timeout = timeout
+        self.polls = 0           # polls of the stop flags counted in the run (only when a stop position was requested)
 
     def lines(self):
         return self.out.split('\n')
@@ -119,7 +120,7 @@ class Worker:
     MAX_JOBS = 1500   # Enode::cgid_ctr is process-global and never reset: every new Egraph allocates up to it, so an
                       # old worker gets slower and slower (measured 7x after 10^4 scripts); recycle the process
 
-    def run(self, script, args=(), pipe=False, splits=(), trace=False, timeout=10.0):
+    def run(self, script, args=(), pipe=False, splits=(), trace=False, timeout=10.0, stop=None):
         self.jobs = getattr(self, 'jobs', 0) + 1
         if self.p is not None and self.jobs % self.MAX_JOBS == 0:
             self.close()
@@ -131,6 +132,7 @@ class Worker:
             ab = a.encode(); req += struct.pack('<I', len(ab)) + ab
         req += struct.pack('<I', len(sb)) + sb
         req += struct.pack('<I', len(splits)) + b''.join(struct.pack('<I', s) for s in splits)
+        if stop is not None: req += struct.pack('<ii', stop[0], stop[1])      # (stop before poll k, withdraw it m polls later; m = 0: never)
         try:
             self.p.stdin.write(struct.pack('<I', len(req)) + req); self.p.stdin.flush()
         except BrokenPipeError:
@@ -147,7 +149,9 @@ class Worker:
                 for _ in range(3):
                     ln = struct.unpack_from('<I', body, off)[0]; off += 4
                     fields.append(body[off:off + ln].decode('latin-1')); off += ln
-                return Result(status, fields[0], fields[1], fields[2], wall)
+                res_ = Result(status, fields[0], fields[1], fields[2], wall)
+                if off + 4 <= len(body): res_.polls = struct.unpack_from('<I', body, off)[0]
+                return res_
             hdr = body
         # crash or timeout
         timed_out = hdr is None
